@@ -365,7 +365,8 @@ func c17Setup() (*c17Env, error) {
 	os.Setenv("PHANTOM_SUBNET_LOCATION", conjurepath.Root+"/pkg/station/lib/test/phantom_subnets.toml")
 	e := &c17Env{geo: &c17Geo{ccErr: map[string]*c17Err{}, asErr: map[string]*c17Err{}, after: map[string]int{}}, tr: &c17T{plans: map[net.Conn]*c17Plan{}},
 		ct: &c17CT{plans: map[string]*c17CPlan{}}}
-	e.rm = cj.NewRegistrationManager(&cj.RegConfig{EnableIPv4: true, EnableIPv6: true})
+	e.cm = newConnManager(nil)
+	e.rm = cj.NewRegistrationManager(&cj.RegConfig{EnableIPv4: true, EnableIPv6: true, ConnectingStats: e.cm})
 	if e.rm == nil {
 		return nil, errors.New("NewRegistrationManager returned nil")
 	}
@@ -384,7 +385,6 @@ func c17Setup() (*c17Env, error) {
 			e.dtlsOK = true
 		}
 	}
-	e.cm = newConnManager(nil)
 	reg, err := c17NewReg(e.rm, net.IPv4(198, 51, 100, 1), "127.0.0.1:9", bytes.Repeat([]byte{7}, 32))
 	if err != nil {
 		return nil, err
